@@ -47,6 +47,8 @@ var scens = []scen{
 		Threads: [][]op{{{"create", "c1"}, {"stop", "c1"}}, {{"update", "c2"}, {"event:RemoveContainer", "c2"}}}},
 	{Name: "c06-pod-events", Props: []string{"C06"}, Masks: []api.EventMask{0, 0},
 		Threads: [][]op{{{"event:UpdatePodSandbox", "c1"}, {"event:RunPodSandbox", "c1"}}, {{"event:StopPodSandbox", "c2"}}}},
+	{Name: "c06-three-by-two", Props: []string{"C06"}, Masks: []api.EventMask{0, mk(api.Event_CREATE_CONTAINER, api.Event_STOP_CONTAINER), 0},
+		Threads: [][]op{{{"create", "c1"}, {"event:PostCreateContainer", "c1"}}, {{"create", "c2"}, {"stop", "c2"}}, {{"event:UpdatePodSandbox", "c3"}, {"update", "c3"}}}},
 	{Name: "c01-collide-within", Props: []string{"C01"}, Masks: []api.EventMask{0, 0}, Collide: "within",
 		Threads: [][]op{{{"create", "c1"}}, {{"create", "c2"}}}},
 	{Name: "c01-collide-across", Props: []string{"C01", "C06"}, Masks: []api.EventMask{0, 0}, Collide: "across",
